@@ -106,6 +106,14 @@ def solve(pr, name, facts, goal=None, witness=None, function='value.value_json')
                     'result = {"violates": bool(bad), "observed": bad}\n')
             res = run_witness(code)
             replay = {'reproduced': bool(res.get('violates')), 'observed': res}
+    if witness is not None and not replay.get('reproduced'):
+        # the model's own text did not replay: a fixed family of awkward strings and numbers (native witness program)
+        for fam in (STR_FAMILY, NUM_FAMILY):
+            res = run_witness(fam)
+            if res.get('violates'):
+                inputs = 'fixed family of strings/numbers (native witness program)'
+                replay = {'reproduced': True, 'observed': res}
+                break
     pr.add_obligation(name, 'sat', backend, secs, detail=detail, function=function, inputs={'value': inputs}, replay=replay)
 
 
@@ -120,6 +128,22 @@ NUM_FAMILY = ('import json\nfrom bare_script.value import value_json\n'
               '            ok = False\n'
               '        if not ok:\n'
               '            bad.append([v, indent, t])\n'
+              'result = {"violates": bool(bad), "observed": bad[:3]}\n')
+
+
+STR_FAMILY = ('import json\nfrom bare_script.value import value_json\n'
+              'bad = []\n'
+              'texts = ["a.0,b", "x.00]", "k.0}", "q\\".0,", "a\\".0,b", "\\\\", "\\\\\\".0]", "e\\\\\\\\.0}", "\\n.0,", "\u00e9.0]", ".0", "1.0,2.0"]\n'
+              'for t in texts:\n'
+              '    for v in (t, [t, 1.0, t], {t: 1.0, "z": t}, [[t], 2.0]):\n'
+              '        for indent in (None, 2):\n'
+              '            out = value_json(v, indent)\n'
+              '            try:\n'
+              '                ok = json.loads(out) == v and "1.0" not in out.replace(t, "") and "2.0" not in out.replace(t, "")\n'
+              '            except ValueError:\n'
+              '                ok = False\n'
+              '            if not ok:\n'
+              '                bad.append([v, indent, out])\n'
               'result = {"violates": bool(bad), "observed": bad[:3]}\n')
 
 
